@@ -22,6 +22,8 @@ from .. import core
 from ..gen import rng_for
 
 PROP = "C14"
+# who acts on the lock in a node: facts regenerated from election.go / leader.go (kbextract lockcalls.go)
+EXTRA_PROP_MODULES = [("KB.Props.OrderC14", "KB.OrderC14")]
 BATCH = {"memkv": 1500, "badger": 12, "tikv": 12}
 
 
